@@ -163,7 +163,7 @@ FEATURE_GRAMMARS = [
     ('eol', "start: 'a' $-> 'b' | 'b' $-> ;\n"),
     ('joins', "start: 'b'%{'a'}+ | 'b'.{'a' 'a'} 'b' ;\n"),
     ('shared-names', "start: 'a' c:n 'b' t:n ['a' e:n] | 'b' c:n ['b' t:n] | l+:'a' | 'b' 'b' l+:n {l+:n} ;\n\nn: /[ab]/ ;\n"),
-    ('names-without-sequence', "start: args | items ;\n\nargs: 'b'.{a+:n} ;\n\nitems: {x+:'a' | y+:'b' 'b'}+ ;\n\nn: 'a' 'a' ;\n"),
+    ('names-without-sequence', "start: args $ | items $ ;\n\nargs: 'b'.{a+:n} ;\n\nitems: {x+:'a' | y+:'b' 'b'}+ ;\n\nn: 'a' 'a' ;\n"),
     ('names-in-nested-choice', "start: ('a' x:'a' | 'b' [x:'b'] y:'a') [z:'b' | z+:'a'] ;\n"),
 ]
 
@@ -174,9 +174,39 @@ def feature_inputs(name, tier):
         'comments': ['a', 'b', ' ', '(*b*)', '#a\n'], 'keywords': ['a', 'b', ' '], 'keywords-ic': ['a', 'A', 'b', ' '],
         'pyliterals': ['None', 'True', 'r', 'a', ' '], 'quotes': ["'", '"', 'a', '/', 'b', ' '],
         'meta': ['1', '-', '.', 'a', '_', ' ', 'e'], 'eol': ['a', 'b', ' ', '\n'],
+        'meta-all': ['-1 ', '2 ', '1.5 ', 'true ', 'x '], 'lookaheads': ['a', 'b', 'c', 'd', ' '],
+        'ws-directive': ['a-b', 'c', ' ', '\t', '(*x*)', '#x\n'], 'long-choice': ['a' * 9, 'b' * 9, 'j' * 9, 'a', ' '],
+        'unicode': ['é', 'こんにちは', '世界', 'w', 'x', ' '],
     }.get(name, ['a', 'b', ' '])
     n = 4 if tier == 'quick' else 5
+    if name in ('include', 'pynames', 'meta-all', 'lookaheads', 'unicode'):
+        n = 5       # their longest alternative needs that many lexemes
+    if name == 'long-choice':
+        n = 2
+    if name == 'long-seq':
+        words = [c * 9 for c in 'abcdefghij']
+        out = [' '.join(words), ''.join(words), '  '.join(words) + ' ']
+        out += [' '.join(words[:i] + words[i + 1:]) for i in range(10)]
+        out += [' '.join(words[:i] + [words[i + 1], words[i]] + words[i + 2:]) for i in range(9)]
+        out += [' '.join(words[:i]) for i in range(10)]
+        return out
     return list(gs.inputs(alpha, n))
+
+
+def feature_inputs_capped(name, tier, cap, model=None):
+    """All inputs when they are at most `cap`; else the shortest cap/2 plus up to cap/2 of the inputs the model
+    accepts (long accepted inputs are the ones that reach a grammar's last elements), longest first."""
+    ins = feature_inputs(name, tier)
+    if len(ins) <= cap:
+        return ins
+    head = ins[:cap // 2]
+    rest = ins[cap // 2:]
+    if model is None:
+        return head + rest[-(cap // 2):]
+    kw = impl.with_start(model, {})
+    acc = [t for t in rest if impl.parse(model, t, **kw)[0] == 'ok']
+    acc = acc[::-1][:cap // 2]
+    return head + acc + rest[-max(0, cap // 2 - len(acc)):] if len(acc) < cap // 2 else head + acc
 
 
 def shard_features(m, items, tier='quick'):
@@ -190,6 +220,7 @@ def shard_features(m, items, tier='quick'):
             continue
         m.add('programs')
         inputs = feature_inputs(name, tier)
+        impl.rule_reach(m, 'feature-grammar-rules', name, model, inputs, **impl.with_start(model, {}))
         for sname, st in SETTINGS:
             for t in inputs:
                 compare(m, label, False, model, pcls, t, f'{name}/{sname}', st)
